@@ -1,6 +1,7 @@
 package props
 
 import (
+	"os"
 	"testing"
 
 	"verif/harness/core"
@@ -15,3 +16,25 @@ func TestC03(t *testing.T) { core.Run(t, P03) }
 func TestC04(t *testing.T) { core.Run(t, P04) }
 
 func TestC19(t *testing.T) { core.Run(t, P19) }
+
+func TestC06(t *testing.T) { core.Run(t, P06) }
+
+func TestC07(t *testing.T) { core.Run(t, P07) }
+
+func TestC08(t *testing.T) { core.Run(t, P08) }
+
+// TestC08Shapes: the 256 zero / non-zero patterns, exhaustively (shard 0 only).
+func TestC08Shapes(t *testing.T) {
+	if os.Getenv("VERIF_SHARD") != "" && os.Getenv("VERIF_SHARD") != "0" {
+		t.Skip("enumerations run in shard 0")
+	}
+	core.SetRule("C08.shapes", "all 256 zero / non-zero patterns of the eight pieces, written without compression, in a special and a non-special URL: the serializer's choice of the run to compress is enumerated completely (exhaustive)")
+	n, msg := Shapes08()
+	if msg != "" {
+		core.ReportViolation("C08.shapes", msg, map[string]string{"note": "enumeration failure; rerun TestC08Shapes"})
+		t.Fatal(msg)
+	}
+	core.AddEvaluations("C08.shapes", int64(n), int64(n), true, map[string]string{"example": "http://[10:0:0:13:0:0:0:17]/ -> [10:0:0:13::17]"})
+}
+
+func TestC09(t *testing.T) { core.Run(t, P09) }
